@@ -24,6 +24,7 @@ var MethodMap = map[string]Operation{
 	"/gripql.Query/ListGraphs":   Read,
 	"/gripql.Query/ListIndices":  Read,
 	"/gripql.Query/ListLabels":   Read,
+	"/gripql.Query/ListTables":   Read,
 
 	"/gripql.Job/Submit":     Exec,
 	"/gripql.Job/ListJobs":   Read,
